@@ -125,3 +125,23 @@ Example C11_example_fault_then_twice :
         [(OResolve, OOk); (OPushBlob, OOk); (OExistsCfg, OOk); (OPushCfg, OOk); (OPushMan, OOk)];
         [(OResolve, OOk); (OPushBlob, OOk); (OExistsCfg, OOk); (OPushMan, OOk)]].
 Proof. exact fault_witness. Qed.
+
+(* --- referrers tag-schema fallback (registry without the Referrers API, one long-lived
+   registry, several SignOCI on one artifact): [rc_sig] = the envelope bytes the signer
+   returned, [rc_old_index] = the subject's referrers index before the call,
+   [rc_del_fails] = the manifest DELETE fails during the call. The oracle [rspec_call]
+   run on every observed call says: unless the call failed otherwise, the signature
+   manifest is attached to the resolved subject, layers[0] is fetchable with exactly the
+   signer's bytes, and nothing but the superseded index left the store; the healthy
+   client [rmodel_call] meets it on every history --- *)
+Theorem C11_referrers_fallback_envelope : forall c o,
+  rspec_call c o = true -> ro_outcome o <> RFailed ->
+  ro_attached o = true /\ ro_envelope o = Some (rc_sig c)
+  /\ (forall d, In d (ro_removed o) -> rc_old_index c = Some d).
+Proof. exact rspec_envelope. Qed.
+Print Assumptions C11_referrers_fallback_envelope.
+
+Theorem C11_referrers_fallback_model_ok : forall cs,
+  rspec_calls cs (map rmodel_call cs) = true.
+Proof. exact rmodel_spec_ok. Qed.
+Print Assumptions C11_referrers_fallback_model_ok.
